@@ -646,5 +646,39 @@ pub fn all() -> Vec<Witness> {
             case: case_of(main, procs, b"", vec![]),
         });
     }
+    // ---- ON ERROR RESUME NEXT leaves argument states behind ----
+    {
+        let mut b = B(0);
+        let f2 = vec![
+            b.s(StmtKind::Fail(FailKind::DivZeroBuiltInArgs)),
+            b.s(StmtKind::Assign {
+                var: "F2%".into(),
+                expr: int(7),
+            }),
+        ];
+        let main = vec![
+            b.s(StmtKind::OnErrorResumeNext),
+            b.s(StmtKind::Assign {
+                var: "G2%".into(),
+                expr: Expr::Call("F2%".into(), vec![int(1)]),
+            }),
+            b.print(Dev::Screen, vec![e(lit("T")), PItem::Semi, e(var("G2%"))]),
+            b.s(StmtKind::End),
+        ];
+        let procs = vec![Proc {
+            name: "F2%".into(),
+            is_function: true,
+            params: vec!["P1%".into()],
+            body: f2,
+        }];
+        out.push(Witness {
+            name: "fixed-resume-next-mode-leaves-argument-states",
+            property: "C08",
+            class: "Internal",
+            key: "",
+            what: "ON ERROR RESUME NEXT: an error while the arguments of a call were evaluated inside a FUNCTION left the argument states on the context stack; the return panicked with 'Expected normal state'",
+            case: case_of(main, procs, b"", vec![]),
+        });
+    }
     out
 }
